@@ -14,7 +14,9 @@
 From Coq Require Import NArith List Bool Arith.
 From CL Require Import Base.Sx Base.Res Base.Str Generated.C06Facts
   Model.Difflib Model.CheckProps Model.CheckPropsSpec
-  Proofs.DifflibProofs Proofs.CheckPropsProofs Proofs.PluralProofs.
+  Proofs.DifflibProofs Proofs.CheckPropsProofs Proofs.PluralProofs
+  Proofs.SpecsProofs Proofs.PrintfRxProofs Proofs.SpecsTokens Proofs.PluralVarsProofs
+  Proofs.CheckSelectProofs.
 Import ListNotations.
 
 (* ---- difflib (model without junk heuristics) ----------------------------------
@@ -69,6 +71,34 @@ Proof. exact check_printf_verdict. Qed.
 Theorem C06_specs_fuel : forall v, get_printf_specs v <> Raise OutOfFuel.
 Proof. exact get_printf_specs_fuel. Qed.
 
+(* ---- getPrintfSpecs = the positional argument model --------------------------------
+   Values as token lists (Model/CheckPropsSpec.v): text without a per cent
+   sign, an escaped per cent sign, a lone per cent sign, conversions with optional argument number /
+   width / precision.  [clean]: numbers, widths and precisions are digit
+   strings (a number does not start with 0), the conversion character is one
+   of d u x X o s S c p f g, texts have no per cent sign, and a lone per cent
+   sign is not followed by a character that would continue it into a
+   conversion or an escape.  [argmodel]: escaped signs and text contribute
+   nothing, a lone sign is the error at its offset, mixing styles is the
+   error at the offending token, an ordered argument n$ goes to slot n, a
+   gap in the slots is the error at offset 0.
+   For EVERY clean token list, getPrintfSpecs of its rendering -- the printf
+   regular expression regenerated from the source, run by the regex engine,
+   and the loop over its matches -- is exactly that model. *)
+Theorem C06_specs_tokens : forall toks, clean toks = true ->
+  get_printf_specs (render toks) = Ok (argmodel toks).
+Proof. exact specs_tokens. Qed.
+
+(* the two halves: the regex layer (finditer yields one match per token that
+   begins with a per cent sign, describing it) and the loop over such matches *)
+Theorem C06_specs_regex : forall toks, clean toks = true ->
+  exists ms, Rx.rfinditer RxC06.rx_printf (render toks) = Some ms /\ matches_describe toks ms.
+Proof. exact printf_matches. Qed.
+
+Theorem C06_specs_model : forall toks ms, clean toks = true -> matches_describe toks ms ->
+  specs_loop (render toks) ms false [] = Ok (argmodel toks).
+Proof. exact specs_model. Qed.
+
 (* ---- the plural verdict ----------------------------------------------------------
    With pats / lpats the #n variables of the reference / localized value:
      - count part: the locale has n forms and the value has found_forms = 1 +
@@ -91,6 +121,18 @@ Theorem C06_plural : forall loc r l pats lpats,
        fs_var = [plural_f s_error lit_plural_extra_msg]) /\
     (pats <> [] -> (forall x, In x pats <-> In x lpats) -> fs_var = []).
 Proof. exact check_plural_verdict. Qed.
+
+(* the premises of C06_plural always hold: every match of the #n expression
+   has its group, a non-empty run of ASCII digits, so int() never fails; hence
+   check_plural never raises *)
+Theorem C06_plural_vars_total : forall s, exists l, plural_vars s = Ok l.
+Proof. exact plural_vars_total. Qed.
+
+Theorem C06_plural_total : forall loc r l, exists fs, check_plural loc r l = Ok fs.
+Proof.
+  intros loc r l. destruct (plural_vars_total r) as [pats Hr]. destruct (plural_vars_total l) as [lpats Hl].
+  destruct (check_plural_verdict loc r l pats lpats Hr Hl) as (f1 & f2 & H & _). eauto.
+Qed.
 
 (* the verdict depends only on the SETS of variables, the number of ';' and
    the locale's number of forms *)
@@ -128,6 +170,34 @@ Proof. exact get_plural_rule_region. Qed.
 Theorem C06_plural_table_forms : forall loc n, plural_forms loc = Some n -> 0 < n.
 Proof. exact plural_forms_positive. Qed.
 
+(* ---- the selection logic of check --------------------------------------------------
+   The encoding scan never fails; the plural branch is taken iff the reference
+   has a comment containing the Localization_and_Plurals literal, its key is
+   not pluralRule and its value is not all digits ([plural_selected]); then
+   check is the encoding findings followed by check_plural's; otherwise it is
+   the encoding findings, the unknown-escape findings and, when the reference
+   has printf arguments, checkPrintf's. *)
+Theorem C06_check_selection : forall c,
+  exists enc b, encoding_findings c = Ok enc /\ is_plural c = Ok b /\
+    (b = true <-> plural_selected c) /\
+    (b = true ->
+       check c = match check_plural (locale c) (ref_val c) (l10n_val c) with
+                 | Ok r => Ok (enc ++ r)
+                 | Raise t => Raise t
+                 end) /\
+    (b = false ->
+       exists escs, escape_findings (l10n_raw c) = Ok escs /\
+         check c = match get_printf_specs (ref_val c) with
+                   | Raise t => Raise t
+                   | Ok (SOk ((_ :: _) as refSpecs)) =>
+                       match check_printf refSpecs (l10n_val c) with
+                       | Ok pf => Ok (enc ++ escs ++ pf)
+                       | Raise t => Raise t
+                       end
+                   | Ok _ => Ok (enc ++ escs)
+                   end).
+Proof. exact check_selection. Qed.
+
 (* ---- non-vacuity: concrete runs, evaluated by the kernel ------------------------- *)
 Definition s_ (l : list nat) : str := map N.of_nat l.
 
@@ -153,6 +223,15 @@ Example C06_example_error :
   end.
 Proof. vm_compute. split; reflexivity. Qed.
 
+(* a clean token list: "a %2$5.1f %% %1$S" *)
+Example C06_example_tokens :
+  let toks := [TText [97%N; 32%N]; TSpec (Some [50%N]) (WNum [53%N]) (PDotNum [49%N]) 102%N;
+               TText [32%N]; TPct; TText [32%N]; TSpec (Some [49%N]) WNone PNone 83%N] in
+  clean toks = true /\
+  render toks = s_ [97; 32; 37; 50; 36; 53; 46; 49; 102; 32; 37; 37; 32; 37; 49; 36; 83] /\
+  argmodel toks = SOk [Some [83%N]; Some [102%N]].
+Proof. vm_compute. repeat split; reflexivity. Qed.
+
 (* a lone per cent sign at offset 2 *)
 Example C06_example_lone :
   check_printf [Some [83%N]] (s_ [97; 32; 37; 32; 98]) = Ok [error_f 2 lit_pe_single].
@@ -168,6 +247,15 @@ Proof. vm_compute. reflexivity. Qed.
 Example C06_example_plural :
   match check_plural (Some (s_ [103; 97])) (s_ [35; 49]) (s_ [35; 49; 59; 35; 50]) with
   | Ok [f1; f2] => f_sev f1 = s_warning /\ f_sev f2 = s_error /\ f_cat f2 = s_plural
+  | _ => False
+  end.
+Proof. vm_compute. repeat split; reflexivity. Qed.
+
+(* check end to end: reference "%S %d" without comment, localized "%S": the trailing warning *)
+Example C06_example_check :
+  match check (mkin None (s_ [107]) (s_ [37; 83; 32; 37; 100]) (s_ [107])
+                    (s_ [107; 32; 61; 32; 37; 83]) (s_ [37; 83]) (s_ [37; 83]) (Some (s_ [100; 101]))) with
+  | Ok [f] => f_sev f = s_warning /\ f_cat f = s_printf /\ f_pos f = 0
   | _ => False
   end.
 Proof. vm_compute. repeat split; reflexivity. Qed.
